@@ -60,6 +60,58 @@ Arguments cache_ok {call K result} key K_eq_dec f c.
 Arguments key_complete {call K result} key f.
 
 (* ------------------------------------------------------------------------------------------ *)
+(** ** Module-level SETTINGS read by a memoised function.
+
+    A dadi function may read, besides its arguments, a module-level variable ([dadi.Integration.timescale_factor],
+    [use_delj_trick], ...) that the user re-binds between calls by plain attribute assignment - the documented way.
+    For the purpose of [key_complete] such a setting IS PART OF THE CALL: a call is
+    (value of the setting when the call is made, arguments), and [st_f] - the body of the function - reads both.
+    [st_key_args] is the key of a memo that keeps the arguments only ([functools.lru_cache] on a function whose body
+    reads the global); [st_key_full] keeps the setting as well. *)
+Section SettingMemo.
+  Variables S A KA result : Type.
+  Variable akey : A -> KA.                       (* what the key keeps of the arguments *)
+  Variable g : S -> A -> result.                 (* the body: reads the setting and the arguments *)
+  Definition st_call := (S * A)%type.
+  Definition st_f (c : st_call) : result := g (fst c) (snd c).
+  Definition st_key_args (c : st_call) : KA := akey (snd c).
+  Definition st_key_full (c : st_call) : S * KA := (fst c, akey (snd c)).
+
+  (** a user program: the setting is changed by plain assignment ([Assign]: the memo is left as it is) or through a setter
+      that also empties the memo ([Setter]: [Integration.set_timescale_factor] after the memo was added); [Call]s go through
+      a memo keyed on the arguments *)
+  Inductive st_event := Assign (s : S) | Setter (s : S) | Call (a : A).
+  Variable KA_dec : forall a b : KA, {a = b} + {a <> b}.
+  Fixpoint st_prun (s : S) (c : cache KA result) (p : list st_event) : list result :=
+    match p with
+    | [] => []
+    | Assign s' :: p' => st_prun s' c p'
+    | Setter s' :: p' => st_prun s' [] p'
+    | Call a :: p' => let (c1, r) := step akey KA_dec (g s) c a in r :: st_prun s c1 p'
+    end.
+  (** what each call returns in a pristine interpreter that had the setting of that moment from the start *)
+  Fixpoint st_pspec (s : S) (p : list st_event) : list result :=
+    match p with
+    | [] => []
+    | Assign s' :: p' => st_pspec s' p'
+    | Setter s' :: p' => st_pspec s' p'
+    | Call a :: p' => g s a :: st_pspec s p'
+    end.
+  Fixpoint st_no_assign (p : list st_event) : bool :=
+    match p with [] => true | Assign _ :: _ => false | _ :: p' => st_no_assign p' end.
+End SettingMemo.
+
+Arguments st_f {S A result} g c.
+Arguments st_key_args {S A KA} akey c.
+Arguments st_key_full {S A KA} akey c.
+Arguments Assign {S A} s.
+Arguments Setter {S A} s.
+Arguments Call {S A} a.
+Arguments st_prun {S A KA result} akey g KA_dec s c p.
+Arguments st_pspec {S A result} g s p.
+Arguments st_no_assign {S A} p.
+
+(* ------------------------------------------------------------------------------------------ *)
 (** ** The instance used by the correspondence check: calls, keys and values are numbered.
 
     The harness logs every entry into a memoised dadi function as (key number, number of the value a
